@@ -128,6 +128,31 @@ Theorem c10_lookup_step_bounded :
 Proof. exact lookup_heard_bound. Qed.
 Print Assumptions c10_lookup_step_bounded.
 
+(* 4b. The same with the routing-table IP-diversity filter configured (any
+   group oracle, any limit): still at most 2K, because the filter sees the capped
+   list; and what the filter lets through has no IP group represented by more
+   than [limit] distinct peers, while a peer outside every over-represented
+   group is kept. *)
+Theorem c10_lookup_step_bounded_with_diversity :
+  forall K self target qfilter gm limit rp,
+    wire_reply rp = true ->
+    exists r, lookup_heard_div K self target qfilter gm limit rp = Ok r /\
+              match r with Some h => (length h <= 2 * K)%nat | None => rp = RErr end.
+Proof. exact lookup_heard_div_bound. Qed.
+Print Assumptions c10_lookup_step_bounded_with_diversity.
+
+Theorem c10_diversity_filter :
+  forall gm limit l,
+    incl (filter_diversity gm limit l) l /\
+    ((0 < limit)%nat -> forall g, (group_size gm (filter_diversity gm limit l) g <= limit)%nat) /\
+    (forall n, In n l -> removed_by gm limit l n = false -> In n (filter_diversity gm limit l)).
+Proof.
+  intros gm limit l. split; [exact (filter_diversity_incl gm limit l)|].
+  split; [intros H g; exact (filter_diversity_bound gm limit l g H)|].
+  exact (filter_diversity_keeps gm limit l).
+Qed.
+Print Assumptions c10_diversity_filter.
+
 (* Non-vacuity: a wire reply with a record for another key, a record over the
    limit and an undecodable address; GetProviders sanitizes it, GetValue refuses it. *)
 Definition ex_big : apeer :=
